@@ -624,6 +624,23 @@ def body_sum(data) -> Outcome:
     if it != got:
         out.fail("sum-iter-differs-from-list", f"{data}")
     check_len(out, "sum", ms, got, sum(1 for r in ops if not r["items"]), data)
+    # history: after the sum has been listed and measured it (or a nested MultiSweep member of it) grows in place
+    # through combine(); the sum is again the concatenation and len() again agrees with list()
+    if not out.failures and isinstance(ms, MultiSweep):
+        try:
+            nested = [m for m in ms.sweeps if isinstance(m, MultiSweep)]
+            target = nested[-1] if nested else ms
+            at_end = not nested or ms.sweeps[-1] is target
+            target.combine(build_sweep(ops[0]))
+            got2 = ms.list()
+        except Exception as e:
+            out.fail(exc_bucket(e, "sum-grow-raised"), f"{data} {exc_detail(e)}")
+            return out
+        if at_end:
+            out.labels.append("grown-nested-member" if nested else "grown-in-place")
+            ref2 = ref + refs[0]
+            if compare_lists(out, "sum-grown", got2, ref2, all_ordered, data):
+                check_len(out, "sum-grown", ms, got2, sum(1 for r in ops + [ops[0]] if not r["items"]), data)
     return out
 
 
